@@ -24,7 +24,7 @@ from .. import bootstrap
 
 ID = "C08"
 RULE = ("case = (engine in {standard, multilevel adaptive, multilevel fixed-level}, process in {Black-Scholes, HEM, Merton direct; "
-        "1-d Markov chain}, number of paths, number of worker processes in {1, 2, 4}, seed given or not, fixed-date or jump-time "
+        "1-d Markov chain / coupling, 2-d copula chain / copula coupling}, number of paths, number of worker processes in {1, 2, 4}, seed given or not, fixed-date or jump-time "
         "product) x monitor in {repeat-in-fresh-interpreters, repeat-in-process, seed audit, exactly-once}; non-trivial = run "
         "that stored >= 8 samples; distinct = distinct run specification x monitor")
 ASSUMPTIONS = ["repeatability is only claimed (and checked) for single-process runs with a seed",
@@ -61,6 +61,16 @@ def gen_cases(tier, seed):
             if not st:
                 cases.append({"monitor": "exactly-once", "run": dict(base, workers=1)})
                 cases.append({"monitor": "exactly-once", "run": dict(base, workers=2)})
+    # copula chain (standard engine) and copula coupling (multilevel engine): pre-drawn rows of vector-valued increments
+    for k2, (eng, st) in enumerate((("standard", False), ("standard", True), ("mlmc-fixed", False), ("mlmc", False)) if thorough else (("standard", False), ("mlmc", False))):
+        base = {"engine": eng, "process": "copula", "paths": 24 if eng == "standard" else 16, "stochastic_dates": st, "seed": 777 + seed + k2, "rmse": 0.8}
+        cases.append({"monitor": "repeat-fresh", "run": dict(base, workers=1)})
+        cases.append({"monitor": "seed-audit", "run": dict(base, workers=1)})
+        if not st:
+            cases.append({"monitor": "exactly-once", "run": dict(base, workers=2, paths=30 if eng == "standard" else 16)})
+            if thorough:
+                cases.append({"monitor": "exactly-once", "run": dict(base, workers=1)})
+                cases.append({"monitor": "exactly-once", "run": dict(base, workers=4, seed=None)})
     if thorough:
         # more path counts (different chunkings of the indices among the workers) and seeds
         extra = []
